@@ -174,6 +174,12 @@ def migrate (A : Aead) (utf8dec : Bytes â†’ Option String) (unwrapKeys : Bytes â
       | .error e => .error e
       | .ok db => .ok { db := db, h := { cache := [(walletName, 1, pkey)], nextKey := pkey + 1 }, default := walletName }
 
+/-- an executable instance (used by the driver and by the non-vacuity examples): "ciphertext" = key â€– nonce â€– plaintext,
+    decryption checks the prefix -/
+def toyAead : Aead where
+  enc k n m := k ++ n ++ m
+  dec k n c := if c.take (k.length + n.length) == k ++ n then some (c.drop (k.length + n.length)) else none
+
 /-! ### The packed tag list (executable only; see the header) -/
 
 /-- `tags.split(',')`, then `t.split(':')`: `next().unwrap()` twice â€” the second one panics when a piece has no
